@@ -172,6 +172,9 @@ class MethodAnalysis:
                 st[p] = ('NUM', state[1])       # `return value + 0.0`: evaluated successfully only for a number
                 return st
             state = self._apply_call_effects(a, state)
+            if isinstance(a, ast.Assign) and any(src(t) == p for t in a.targets) and isinstance(a.value, ast.Name) and a.value.id == p:
+                st[p] = state
+                return st
             if isinstance(a, ast.Assign) and any(src(t) == p for t in a.targets):
                 v = a.value
                 hs = None
@@ -198,6 +201,10 @@ class MethodAnalysis:
             if node.kind == 'test' and label in 'TF':
                 s = dict(sout)
                 state = s.get(p, ('RAW', frozenset()))
+                # the opt-in leniency (generalConfig.lazy_number_validation): on the side where it is switched on, text that
+                # converts to a number is accepted by design - the value counts as a number from here on
+                if isinstance(node.ast, ast.expr) and any(tv and src(a).endswith('lazy_number_validation') for a, tv in facts_on_side(node.ast, label == 'T')):
+                    state = ('NUM', state[1])
                 for e, kinds, isinst in isinstance_facts(node.ast, positive=(label == 'T')):
                     if e != p:
                         continue
@@ -297,6 +304,8 @@ def _contained(m, f, node, classes):
             if handler_covers(h, classes, f.module):
                 if _handler_raises_badvalue(m, f, h):
                     return True
+                if not any(isinstance(x, ast.Raise) for st in h.body for x in walk_local(st)):
+                    return True     # swallowed: nothing escapes here (what follows is judged on its own)
                 # handler re-raises into an outer covering handler (lazy idiom)
                 if any(isinstance(x, ast.Raise) and x.exc is None for st in h.body for x in walk_local(st)) or \
                         any(isinstance(x, ast.Try) for st in h.body for x in walk_local(st)):
@@ -895,8 +904,12 @@ def booleans_and_struct_members(ctx):
         v = r.value
         ok = (isinstance(v, ast.Call) and dotted(v.func) == 'bool') or (isinstance(v, ast.Constant) and isinstance(v.value, bool)) or \
             (isinstance(v, ast.Compare))
-        ctx.check(ok, f'{f.qualname}:returns a bool', r, src(v), f'`return {src(v)}` hands the offered 0 / 1 (an int) on instead of a bool: '
-                  'the validated value is not in canonical form (it exports as 1 instead of true)', f)
+        raw = isinstance(v, ast.Name) and (v.id == p or any(isinstance(o, ast.Name) and o.id.startswith('<param') for o in origins(v, f.node)))
+        if ok or raw:
+            ctx.check(ok, f'{f.qualname}:returns a bool', r, src(v), f'`return {src(v)}` hands the offered 0 / 1 (an int) on instead of a bool: '
+                      'the validated value is not in canonical form (it exports as 1 instead of true)', f)
+        else:
+            ctx.undecided(f'{f.qualname}:returns a bool', r, f'`{src(v)}`: not the offered value itself, not a recognised bool form', f)
     ci, res = _analyse_class(m, 'StructOf')
     for meth, conv in (('__call__', None), ('validate', 'validate')):
         ma = res.get(meth)
